@@ -81,6 +81,11 @@ let check (b : block) : verdict list =
     if k <= 4 then out := v :: !out
     else (match v with Viol (s, _) -> bump ("more_viol_" ^ s) | Diff (s, _) -> bump ("more_diff_" ^ s) | Ok -> ()) in
   let mode = match find b "mode" with Some [m] -> m | _ -> "?" in
+  (* mode dupset: the requests spell the same assumption set with a repeated literal; whatever the
+     oracle finds there is the recorded finding "the cursor is keyed by the literal list" *)
+  let add v = match v with
+    | Viol (s, m) when mode = "dupset" -> add (Viol ("enum:duplicate-literal-key", s ^ ": " ^ m))
+    | v -> add v in
   let hook = match find b "hook" with Some ["1"] -> true | _ -> false in
   if hook then bump "blocks_with_hook_H3" else bump "blocks_hook_H3_absent_stress_only";
   (* keys and reference cycles *)
@@ -128,6 +133,7 @@ let check (b : block) : verdict list =
      | Some [n; "capped"] -> bump "request_lists_interleavings_capped"; bump_by "interleavings_enumerated" (ios n)
      | Some [n; "random"] -> bump_by "interleavings_random" (ios n)
      | Some [n; "free"] -> bump_by "stress_runs" (ios n)
+     | Some [n; "sequential"] -> bump_by "duplicate_literal_runs" (ios n)
      | _ -> ());
     (* model side: requests and counts for the extracted protocol *)
     let zkey k = List.map Conv.z_of_int kinfo.(k).klits in
